@@ -3,7 +3,7 @@
 //! with a small model. Decides C15, C16, C17, C18; each check reports only its
 //! own clauses, the others act as attribution guards.
 
-use crate::events::{gen_event, sanitize, AnyEvent, KIND_NAMES, N_KINDS};
+use crate::events::{gen_event, gen_kind_packet, kind_name, ref_decode, sanitize, KIND_NAMES, N_APP_KINDS, N_KINDS};
 use crate::gen::{fill_pattern, packet_eq, SizeCfg};
 use crate::link_hostile::panic_site;
 use crate::scenario::{bucket, fail, Outcome, Tier};
@@ -24,22 +24,24 @@ const EV_LINK: u8 = 30;
 const EV_HANDLER: u8 = 31;
 const EV_OP: u8 = 32;
 
-pub const N_ERR_KINDS: u32 = 18;
-/// outcomes a link may give to a *send*: the 18 error values above and, as a nineteenth,
+pub const N_ERR_KINDS: u32 = 30;
+/// outcomes a link may give to a *send*: the error values above and, as one more,
 /// `NoPacketReceived` (a meaningless answer to a send, but an error value all the same)
-pub const N_SEND_ERR_KINDS: u32 = 19;
+pub const N_SEND_ERR_KINDS: u32 = N_ERR_KINDS + 1;
 
 pub fn make_iface_err(k: u32) -> InterfaceError {
     use std::io::{Error, ErrorKind};
-    if k == 18 {
+    if k == N_ERR_KINDS {
         return InterfaceError::NoPacketReceived;
     }
+    let rd = |kind: ErrorKind| InterfaceError::SerialError(SerialError::ReadError(Error::new(kind, "sim read")));
+    let wr = |kind: ErrorKind| InterfaceError::SerialError(SerialError::WriteError(Error::new(kind, "sim write")));
     match k % N_ERR_KINDS {
         0 => InterfaceError::CanError(CanError::BufferOverrun),
         1 => InterfaceError::CanError(CanError::MailboxFull),
         2 => InterfaceError::UsartError(UsartError::ReadError),
-        3 => InterfaceError::SerialError(SerialError::ReadError(Error::new(ErrorKind::TimedOut, "sim read"))),
-        4 => InterfaceError::SerialError(SerialError::WriteError(Error::new(ErrorKind::BrokenPipe, "sim write"))),
+        3 => rd(ErrorKind::TimedOut),
+        4 => wr(ErrorKind::BrokenPipe),
         5 => InterfaceError::SerialError(SerialError::BuilderError(PacketBuilderError::OutOfOrder)),
         6 => InterfaceError::SerialError(SerialError::FrameError(FrameError::CobsError)),
         7 => InterfaceError::BuilderError(PacketBuilderError::OutOfOrder),
@@ -52,7 +54,20 @@ pub fn make_iface_err(k: u32) -> InterfaceError {
         14 => InterfaceError::FrameError(FrameError::FrameIsRemote),
         15 => InterfaceError::FrameError(FrameError::FrameIdMissing),
         16 => InterfaceError::FrameError(FrameError::WrongSize),
-        _ => InterfaceError::FrameError(FrameError::CobsError),
+        17 => InterfaceError::FrameError(FrameError::CobsError),
+        // the io error kinds a retrying or "idle-tolerant" layer is tempted to treat specially
+        18 => rd(ErrorKind::Interrupted),
+        19 => rd(ErrorKind::WouldBlock),
+        20 => rd(ErrorKind::UnexpectedEof),
+        21 => rd(ErrorKind::Other),
+        22 => rd(ErrorKind::BrokenPipe),
+        23 => wr(ErrorKind::Interrupted),
+        24 => wr(ErrorKind::TimedOut),
+        25 => wr(ErrorKind::WouldBlock),
+        26 => wr(ErrorKind::WriteZero),
+        27 => wr(ErrorKind::Other),
+        28 => InterfaceError::SerialError(SerialError::BuilderError(PacketBuilderError::MissingFrames)),
+        _ => InterfaceError::SerialError(SerialError::FrameError(FrameError::WrongSize)),
     }
 }
 
@@ -158,6 +173,9 @@ enum Beh {
     Plain,
     /// transmits this packet (to another device) through the handle it is given
     Sender(Packet),
+    /// performs a single-reply exchange for acknowledgements (capture_all = false) through
+    /// the handle it is given and records what it got
+    Exchanger,
 }
 
 #[derive(Clone, Debug)]
@@ -204,6 +222,8 @@ fn zst3(p: &Packet, _: &mut Proto) {
 #[derive(Default)]
 struct HLog {
     fired: Vec<(u32, Packet, u64)>,
+    /// exchanges performed by handlers: (token, debug text of the result, runs of its wait callback)
+    nested: Vec<(u32, String, u32)>,
 }
 
 /// One real node plus everything the harness observes about it.
@@ -270,6 +290,28 @@ fn make_handler(sim: &Sim, name: &'static str, h: &MHandler, hlog: &Rc<RefCell<H
                 DEPTH.with(|d| d.set(depth + 1));
                 sim.count("handler_sent_from_delivery");
                 let _ = proto.send_packet(out);
+                DEPTH.with(|d| d.set(depth));
+            }
+        }
+        if let Beh::Exchanger = &beh {
+            let depth = DEPTH.with(|d| d.get());
+            if depth < 1 {
+                DEPTH.with(|d| d.set(depth + 1));
+                sim.count("handler_started_an_exchange");
+                let req = Packet {
+                    is_error: false,
+                    device_address: 0x0303,
+                    data: vec![0x7c, token as u8],
+                };
+                let nwaits = Cell::new(0u32);
+                let sim3 = sim.clone();
+                let r = proto.exchange_packet::<_, ross_protocol::event::general::AckEvent>(req, false, || {
+                    sim3.event(EV_OP, 11, 0, || "wait callback of the handler's own exchange runs".to_string());
+                    nwaits.set(nwaits.get() + 1);
+                });
+                let text = format!("{:?}", r);
+                sim.event(EV_OP, 12, crate::sim::hash_bytes(0, text.as_bytes()), || format!("{}.handler#{}: its own exchange_packet::<Ack> -> {}", name, token, text));
+                hlog.borrow_mut().nested.push((token, text, nwaits.get()));
                 DEPTH.with(|d| d.set(depth));
             }
         }
@@ -606,8 +648,17 @@ pub fn run(sim: &Sim, prop: &str, tier: Tier) -> Outcome {
     let mut seen_own: BTreeSet<u32> = BTreeSet::new();
     let mut seen_foreign: BTreeSet<u32> = BTreeSet::new();
 
-    for _ in 0..bulk {
-        let capture_all = sim.chance(40);
+    // swarm: where the capture-all handlers of a large table sit (anywhere / nowhere / everywhere /
+    // only from some table position on - e.g. all of them behind the 32nd or 64th entry)
+    let bulk_policy = if bulk > 0 { sim.draw(4) } else { 0 };
+    let bulk_from = if bulk_policy == 3 { sim.pick(&[32u32, 16, 33, 64, 8]) } else { 0 };
+    for bi in 0..bulk {
+        let capture_all = match bulk_policy {
+            0 => sim.chance(40),
+            1 => false,
+            2 => true,
+            _ => bi >= bulk_from,
+        };
         let token = model.next_token;
         model.next_token += 1;
         let h = MHandler { token, capture_all, beh: Beh::Plain, zst: None };
@@ -1379,6 +1430,67 @@ fn op_send(sim: &Sim, prop: &str, node: &mut Node, model: &Model, forced: Option
 
 // ------------------------------------------------------------- exchange ----
 
+/// What an exchange must do with a given incoming queue (reference model).
+struct ExModel {
+    events: Vec<String>,
+    /// queue entries taken from the link
+    consumed: usize,
+    /// calls of try_get_packet (one more than `consumed` when the queue itself ran out)
+    polls: usize,
+    err: Option<u32>,
+    timeout: bool,
+}
+
+fn model_exchange(sim: &Sim, queue: &[RxItem], own: u16, kind: u32, capture: bool, multi_form: bool) -> Result<ExModel, Outcome> {
+    let mut m = ExModel { events: Vec::new(), consumed: 0, polls: 0, err: None, timeout: false };
+    let mut hit_end = true;
+    for (idx, it) in queue.iter().enumerate() {
+        m.consumed = idx + 1;
+        match it {
+            RxItem::Nothing => {
+                hit_end = false;
+                break;
+            }
+            RxItem::Err(k) => {
+                m.err = Some(*k);
+                hit_end = false;
+                break;
+            }
+            RxItem::Pkt(p) => {
+                let pass = capture || p.device_address == own || p.device_address == BROADCAST_ADDRESS;
+                let dec = match ref_decode(kind, p) {
+                    Ok(d) => d,
+                    Err(e) => return Err(Outcome::Foreign("C05.total", e)),
+                };
+                match dec {
+                    Some(ev) if pass => {
+                        m.events.push(ev);
+                        if !multi_form {
+                            hit_end = false;
+                            break;
+                        }
+                    }
+                    Some(_) => sim.count("exchange_skipped_wrong_address"),
+                    None => sim.count("exchange_skipped_nonmatching"),
+                }
+            }
+        }
+    }
+    if hit_end {
+        m.consumed = queue.len();
+        m.polls = queue.len() + 1;
+    } else {
+        m.polls = m.consumed;
+    }
+    if !multi_form && m.events.is_empty() && m.err.is_none() {
+        m.timeout = true;
+    }
+    Ok(m)
+}
+
+/// Kind, capture mode and form of the exchange a handler with behaviour `Exchanger` performs.
+const INNER_KIND: u32 = 3; // AckEvent
+
 fn run_exchange(sim: &Sim, prop: &str, tier: Tier) -> Outcome {
     let own = sim.pick(&[0x0101u16, 0xffff, 0x0000, 0x8000]);
     // two identical nodes: X performs the exchange, Y performs an ordinary send of the
@@ -1388,9 +1500,14 @@ fn run_exchange(sim: &Sim, prop: &str, tier: Tier) -> Outcome {
     let mut y = new_node(sim, "y", own);
     let n_handlers = sim.draw(4);
     let mut hs: Vec<MHandler> = Vec::new();
+    // at most one handler of the table performs an exchange of its own when it is invoked
+    let mut exchanger: Option<u32> = None;
     for t in 0..n_handlers {
         let capture_all = sim.flag();
-        let beh = if sim.chance(20) {
+        let beh = if exchanger.is_none() && sim.chance(8) {
+            exchanger = Some(t + 1);
+            Beh::Exchanger
+        } else if sim.chance(20) {
             let dest = other_addr(sim, own);
             Beh::Sender(Packet {
                 is_error: false,
@@ -1415,7 +1532,13 @@ fn run_exchange(sim: &Sim, prop: &str, tier: Tier) -> Outcome {
         Tier::Thorough => 4,
     });
     for _round in 0..n_rounds {
-        let kind = sim.draw(N_KINDS);
+        // the requested kind: one of the library's sixteen, or an application-defined one
+        let kind = if sim.chance(12) {
+            sim.probe("exchange_application_defined_kind");
+            N_KINDS + sim.draw(N_APP_KINDS)
+        } else {
+            sim.draw(N_KINDS)
+        };
         let multi_form = sim.flag();
         let capture = sim.flag();
         let req_addr = match sim.draw(4) {
@@ -1424,8 +1547,8 @@ fn run_exchange(sim: &Sim, prop: &str, tier: Tier) -> Outcome {
             _ => other_addr(sim, own),
         };
         let request = if sim.chance(30) {
-            // a request that is itself an event of the requested kind (its echo would match)
-            match gen_event(sim, kind, req_addr, SizeCfg { large_pct: 0, huge_pct: 0 }).to_packet(0) {
+            // a request that is itself a value of the requested kind (its echo would match)
+            match gen_kind_packet(sim, kind, req_addr, 0) {
                 Ok(mut p) => {
                     p.device_address = req_addr;
                     sanitize(&mut p);
@@ -1439,7 +1562,8 @@ fn run_exchange(sim: &Sim, prop: &str, tier: Tier) -> Outcome {
         } else {
             gen_app_packet(sim, req_addr, 0x600 + sim.draw(64))
         };
-        let send_fails = if has_loop_senders(&hs, req_addr, own) {
+        let loop_tx = has_loop_senders(&hs, req_addr, own);
+        let send_fails = if loop_tx {
             // handlers transmit before the request itself: the outcome of "the next send" cannot be pinned
             None
         } else if req_addr != own || own == BROADCAST_ADDRESS {
@@ -1452,7 +1576,11 @@ fn run_exchange(sim: &Sim, prop: &str, tier: Tier) -> Outcome {
             None
         };
         // ---- the incoming queue
-        let n_in = if sim.chance(3) {
+        let n_in = if sim.draw(3000) == 2999 {
+            // more replies than any fixed-size reply buffer, counter or size budget expects
+            sim.probe("exchange_queue_over_4096_entries");
+            sim.pick(&[5000u32, 12000])
+        } else if sim.chance(3) {
             // a long backlog ("all finite queues")
             sim.probe("exchange_long_queue");
             sim.pick(&[65u32, 70, 130, 300])
@@ -1462,20 +1590,20 @@ fn run_exchange(sim: &Sim, prop: &str, tier: Tier) -> Outcome {
                 Tier::Thorough => 13,
             })
         };
+        let huge = n_in > 1000;
         let mut queue: Vec<RxItem> = Vec::new();
         for _ in 0..n_in {
-            let c = sim.draw(20);
+            let c = sim.draw(if huge { 8000 } else { 20 });
             let item = if c == 19 {
                 RxItem::Nothing
             } else {
-                let k = if sim.chance(55) { kind } else { sim.draw(N_KINDS) };
+                let k = if sim.chance(if huge { 95 } else { 55 }) { kind } else { sim.draw(N_KINDS + N_APP_KINDS) };
                 let to = match sim.draw(5) {
                     0 | 1 => own,
                     2 => BROADCAST_ADDRESS,
                     _ => other_addr(sim, own),
                 };
-                let ev = gen_event(sim, k, to, SizeCfg { large_pct: 0, huge_pct: 0 });
-                let mut p = match ev.to_packet(sim.u8_any()) {
+                let mut p = match gen_kind_packet(sim, k, to, sim.u8_any()) {
                     Ok(p) => p,
                     Err(e) => return Outcome::Foreign("C03.encode", e),
                 };
@@ -1484,7 +1612,8 @@ fn run_exchange(sim: &Sim, prop: &str, tier: Tier) -> Outcome {
                     p.device_address = to;
                 }
                 if sim.chance(12) {
-                    p.is_error = true;
+                    // the other error type (for the library's kinds: an error packet, which none of them accepts)
+                    p.is_error = !p.is_error;
                 }
                 if sim.chance(8) && !p.data.is_empty() {
                     // damaged: wrong length for its kind
@@ -1521,8 +1650,7 @@ fn run_exchange(sim: &Sim, prop: &str, tier: Tier) -> Outcome {
         // sometimes more traffic sits behind the point where polling must stop
         let tail = sim.draw(3);
         for _ in 0..tail {
-            let ev = gen_event(sim, kind, own, SizeCfg { large_pct: 0, huge_pct: 0 });
-            match ev.to_packet(0) {
+            match gen_kind_packet(sim, kind, own, 0) {
                 Ok(mut p) => {
                     sanitize(&mut p);
                     if kind == 4 && p.data.len() < 6 {
@@ -1533,12 +1661,20 @@ fn run_exchange(sim: &Sim, prop: &str, tier: Tier) -> Outcome {
                 Err(e) => return Outcome::Foreign("C03.encode", e),
             }
         }
+        // the inner exchange of an `Exchanger` handler asks for acknowledgements: packets
+        // shown to it must be safe for that decoder as well (they are: only the message and
+        // data decoders have undefined corners, and neither is the inner kind)
 
-        // ---- reference: an ordinary send of the same request on the twin node
-        y.link.borrow_mut().next_send_err = if has_loop_senders(&hs, req_addr, own) { None } else { Some(send_fails) };
+        // ---- reference: an ordinary send of the same request on the twin node (with the same
+        // traffic waiting on its link: a handler that performs an exchange of its own polls it)
+        let inner_runs = exchanger.is_some() && req_addr == own;
+        y.link.borrow_mut().rx = if inner_runs { queue.iter().cloned().collect() } else { VecDeque::new() };
+        y.link.borrow_mut().next_send_err = if loop_tx { None } else { Some(send_fails) };
         let ry = sut(|| y.proto.send_packet(&request));
         y.link.borrow_mut().next_send_err = None;
+        y.link.borrow_mut().rx.clear();
         let dy = take_logs(&y);
+        let nested_y: Vec<(u32, String, u32)> = std::mem::take(&mut y.hlog.borrow_mut().nested);
 
         if let Err(c) = &ry {
             return Outcome::Foreign("C16.tx", format!("ordinary send crashed: {:?}", c));
@@ -1547,64 +1683,41 @@ fn run_exchange(sim: &Sim, prop: &str, tier: Tier) -> Outcome {
         let send_failed = matches!(ry, Ok(Err(_)));
 
         // ---- model: what must come back, and what must remain on the link
-        let mut expect_events: Vec<AnyEvent> = Vec::new();
-        let mut consumed = 0usize;
-        let mut expect_err: Option<u32> = None;
-        let mut expect_timeout = false;
-        let mut hit_end = true;
-        if !send_failed {
-            for (idx, it) in queue.iter().enumerate() {
-                consumed = idx + 1;
-                match it {
-                    RxItem::Nothing => {
-                        hit_end = false;
-                        break;
-                    }
-                    RxItem::Err(k) => {
-                        expect_err = Some(*k);
-                        hit_end = false;
-                        break;
-                    }
-                    RxItem::Pkt(p) => {
-                        let pass = capture || p.device_address == own || p.device_address == BROADCAST_ADDRESS;
-                        let dec = match AnyEvent::decode(kind, p) {
-                            Ok(d) => d,
-                            Err(e) => return Outcome::Foreign("C05.total", e),
-                        };
-                        match dec {
-                            Some(ev) if pass => {
-                                expect_events.push(ev);
-                                if !multi_form {
-                                    hit_end = false;
-                                    break;
-                                }
-                            }
-                            Some(_) => sim.count("exchange_skipped_wrong_address"),
-                            None => sim.count("exchange_skipped_nonmatching"),
-                        }
-                    }
-                }
-            }
-            if hit_end {
-                consumed = queue.len();
-            }
-            if !multi_form && expect_events.is_empty() && expect_err.is_none() {
-                expect_timeout = true;
+        // (a handler's own exchange runs during the routing and takes its part of the queue first)
+        let inner: Option<ExModel> = if inner_runs {
+            match model_exchange(sim, &queue, own, INNER_KIND, false, false) {
+                Ok(m) => Some(m),
+                Err(o) => return o,
             }
         } else {
-            consumed = 0;
-        }
+            None
+        };
+        let inner_consumed = inner.as_ref().map(|m| m.consumed).unwrap_or(0);
+        let outer = if !send_failed {
+            match model_exchange(sim, &queue[inner_consumed..], own, kind, capture, multi_form) {
+                Ok(m) => m,
+                Err(o) => return o,
+            }
+        } else {
+            ExModel { events: Vec::new(), consumed: 0, polls: 0, err: None, timeout: false }
+        };
+        let consumed = inner_consumed + outer.consumed;
         let remaining: Vec<RxItem> = queue[consumed..].to_vec();
+        let (expect_err, expect_timeout) = (outer.err, outer.timeout);
 
         // ---- the exchange
         x.link.borrow_mut().rx = queue.iter().cloned().collect();
-        x.link.borrow_mut().next_send_err = if has_loop_senders(&hs, req_addr, own) { None } else { Some(send_fails) };
+        x.link.borrow_mut().next_send_err = if loop_tx { None } else { Some(send_fails) };
         x.link.borrow_mut().get_calls.clear();
         let waits: Rc<Cell<u32>> = Rc::new(Cell::new(0));
         let wait_seq: Rc<Cell<u64>> = Rc::new(Cell::new(0));
-        let (w2, ws2, sim2) = (waits.clone(), wait_seq.clone(), sim.clone());
+        let first_wait_seq: Rc<Cell<u64>> = Rc::new(Cell::new(0));
+        let (w2, ws2, fw2, sim2) = (waits.clone(), wait_seq.clone(), first_wait_seq.clone(), sim.clone());
         let wait = move || {
             sim2.event(EV_OP, 7, 0, || "wait callback runs".to_string());
+            if w2.get() == 0 {
+                fw2.set(sim2.steps());
+            }
             w2.set(w2.get() + 1);
             ws2.set(sim2.steps());
         };
@@ -1612,7 +1725,7 @@ fn run_exchange(sim: &Sim, prop: &str, tier: Tier) -> Outcome {
             format!(
                 "exchange_packet{}::<{}>(request {}, capture_all={}) own={:04x} incoming queue of {}",
                 if multi_form { "s" } else { "" },
-                KIND_NAMES[kind as usize],
+                kind_name(kind),
                 show_packet(&request),
                 capture,
                 own,
@@ -1630,9 +1743,16 @@ fn run_exchange(sim: &Sim, prop: &str, tier: Tier) -> Outcome {
         });
         x.link.borrow_mut().next_send_err = None;
         let dx = take_logs(&x);
+        let nested_x: Vec<(u32, String, u32)> = std::mem::take(&mut x.hlog.borrow_mut().nested);
         let left: Vec<RxItem> = x.link.borrow_mut().rx.drain(..).collect();
         let get_calls = x.link.borrow().get_calls.clone();
-        sim.event(EV_OP, 9, left.len() as u64, || format!("exchange -> {:?}   ({} entries left on the link)", got, left.len()));
+        sim.event(EV_OP, 9, left.len() as u64, || {
+            let shown = match &got {
+                Ok(Ok(v)) if v.len() > 6 => format!("Ok([{} values: {}, ...])", v.len(), v[..3].join(", ")),
+                other => format!("{:?}", other),
+            };
+            format!("exchange -> {}   ({} entries left on the link)", shown, left.len())
+        });
 
         let got = match got {
             Ok(g) => g,
@@ -1645,16 +1765,74 @@ fn run_exchange(sim: &Sim, prop: &str, tier: Tier) -> Outcome {
                 )
             }
         };
-        // C18.route: same local deliveries and same transmissions as the ordinary send
-        let fx: Vec<(u32, u64)> = dx.fired.iter().map(|(t, p, _)| (*t, hash_packet(p))).collect();
+        // ---- an exchange performed by a handler while the request was being routed is an
+        // exchange like any other (on the twin node it ran inside an ordinary send)
+        if let Some(im) = &inner {
+            let want = if let Some(k) = im.err {
+                format!("Err(InterfaceError({:?}))", make_iface_err(k))
+            } else if im.timeout {
+                "Err(PacketTimeout)".to_string()
+            } else {
+                format!("Ok({})", im.events[0])
+            };
+            for (who, nested) in [("inside an ordinary send", &nested_y), ("inside the routing step of another exchange", &nested_x)] {
+                if nested.len() != 1 {
+                    // the handler did not run (or ran twice): a routing matter, judged below / by C16
+                    continue;
+                }
+                let (tok, gotn, nwaits) = &nested[0];
+                if *gotn != want || *nwaits != 1 {
+                    return fail(
+                        prop,
+                        if im.err.is_some() { "C18.err" } else if im.timeout { "C18.timeout" } else { "C18.first" },
+                        format!(
+                            "handler #{} performed exchange_packet::<Ack> (capture_all=false, own {:04x}) {} with {} entries waiting on the link: expected {} with the wait callback run once, got {} with the wait callback run {} time(s)",
+                            tok,
+                            own,
+                            who,
+                            queue.len(),
+                            want,
+                            gotn,
+                            nwaits
+                        ),
+                        "exchange-from-handler".to_string(),
+                    );
+                }
+            }
+            sim.probe("exchange_performed_by_handler_during_routing");
+        }
+        // C18.route: same local deliveries and same transmissions as the ordinary send. The
+        // routing part of the exchange is what happens before the wait callback runs; what an
+        // implementation does with received packets while it polls (e.g. handing non-matching
+        // ones to the handlers) is not constrained by the property and is not compared - except
+        // that the request itself must not be transmitted a second time.
+        let cut = if waits.get() >= 1 { first_wait_seq.get() } else { u64::MAX };
         let fy: Vec<(u32, u64)> = dy.fired.iter().map(|(t, p, _)| (*t, hash_packet(p))).collect();
-        let sx: Vec<Packet> = dx.sent.iter().map(|(p, _, _)| p.clone()).collect();
         let sy: Vec<Packet> = dy.sent.iter().map(|(p, _, _)| p.clone()).collect();
-        let mut fxs = fx.clone();
-        let mut fys = fy.clone();
-        fxs.sort();
-        fys.sort();
-        if fxs != fys || !multiset_eq(&sx, &sy) {
+        let fx_all: Vec<(u32, u64)> = dx.fired.iter().map(|(t, p, _)| (*t, hash_packet(p))).collect();
+        let sx_all: Vec<Packet> = dx.sent.iter().map(|(p, _, _)| p.clone()).collect();
+        let fx: Vec<(u32, u64)> = dx.fired.iter().filter(|f| f.2 < cut).map(|(t, p, _)| (*t, hash_packet(p))).collect();
+        let sx: Vec<Packet> = dx.sent.iter().filter(|s| s.2 < cut).map(|(p, _, _)| p.clone()).collect();
+        let same_effects = |f: &Vec<(u32, u64)>, s: &Vec<Packet>| {
+            let mut a = f.clone();
+            let mut b = fy.clone();
+            a.sort();
+            b.sort();
+            a == b && multiset_eq(s, &sy)
+        };
+        if !same_effects(&fx, &sx) {
+            if waits.get() >= 1 && same_effects(&fx_all, &sx_all) {
+                return fail(
+                    prop,
+                    "C18.wait",
+                    format!(
+                        "the wait callback ran at event {} before the routing of the request {} was finished (handler calls / transmissions of the routing happened after it)",
+                        cut,
+                        show_packet(&request)
+                    ),
+                    "wait-position".to_string(),
+                );
+            }
             return fail(
                 prop,
                 "C18.route",
@@ -1668,6 +1846,14 @@ fn run_exchange(sim: &Sim, prop: &str, tier: Tier) -> Outcome {
                     sy.iter().map(show_packet).collect::<Vec<_>>().join(", ")
                 ),
                 "routed-differently".to_string(),
+            );
+        }
+        if dx.sent.iter().any(|s| s.2 >= cut && packet_eq(&s.0, &request)) {
+            return fail(
+                prop,
+                "C18.route",
+                format!("the request {} was handed to the link again after the wait callback had run (an ordinary send transmits it once)", show_packet(&request)),
+                "request-sent-again".to_string(),
             );
         }
         if send_failed {
@@ -1696,24 +1882,37 @@ fn run_exchange(sim: &Sim, prop: &str, tier: Tier) -> Outcome {
             continue;
         }
         // C18.wait: exactly once, after the routing effects, before the first poll
-        let last_route = dx.fired.iter().map(|f| f.2).chain(dx.sent.iter().map(|s| s.2)).max().unwrap_or(0);
-        let first_get = get_calls.first().copied().unwrap_or(u64::MAX);
-        if waits.get() != 1 || wait_seq.get() <= last_route || wait_seq.get() >= first_get {
+        // (that it ran after the routing effects was established above: they all precede it;
+        // polls made before it can only be those of a handler's own exchange)
+        let last_route = dx.fired.iter().filter(|f| f.2 < cut).map(|f| f.2).chain(dx.sent.iter().filter(|s| s.2 < cut).map(|s| s.2)).max().unwrap_or(0);
+        let pre_polls = get_calls.iter().filter(|g| **g < cut).count();
+        let want_pre_polls = if nested_x.len() == 1 { inner.as_ref().map(|m| m.polls).unwrap_or(0) } else { 0 };
+        let first_get = get_calls.iter().copied().find(|g| *g > cut).unwrap_or(u64::MAX);
+        if waits.get() != 1 || wait_seq.get() <= last_route || wait_seq.get() >= first_get || (waits.get() == 1 && pre_polls != want_pre_polls) {
             return fail(
                 prop,
                 "C18.wait",
                 format!(
-                    "the wait callback ran {} time(s) at event {}; the request's routing ended at event {}, the first poll was at event {}",
+                    "the wait callback ran {} time(s) at event {}; the request's routing ended at event {}, the link was polled {} time(s) before the wait callback ({} expected) and first polled after it at event {}",
                     waits.get(),
                     wait_seq.get(),
                     last_route,
+                    pre_polls,
+                    want_pre_polls,
                     if first_get == u64::MAX { "never".to_string() } else { first_get.to_string() }
                 ),
                 if waits.get() != 1 { "wait-count" } else { "wait-position" }.to_string(),
             );
         }
         // results
-        let want_strings: Vec<String> = expect_events.iter().map(inner_debug).collect();
+        let want_strings: &Vec<String> = &outer.events;
+        let brief = |v: &Vec<String>| -> String {
+            if v.len() > 8 {
+                format!("[{} values: {}, ... {}]", v.len(), v[..3].join(", "), v[v.len() - 1])
+            } else {
+                format!("{:?}", v)
+            }
+        };
         if let Some(k) = expect_err {
             let wantd = format!("{:?}", make_iface_err(k));
             let ok = matches!(&got, Err(ProtocolError::InterfaceError(e)) if format!("{:?}", e) == wantd);
@@ -1721,7 +1920,7 @@ fn run_exchange(sim: &Sim, prop: &str, tier: Tier) -> Outcome {
                 return fail(
                     prop,
                     "C18.err",
-                    format!("polling hit the link error {} but the exchange returned {:?}", wantd, got),
+                    format!("polling hit the link error {} but the exchange returned {}", wantd, match &got { Ok(v) => brief(v), Err(e) => format!("Err({:?})", e) }),
                     "link-error-not-propagated".to_string(),
                 );
             }
@@ -1731,7 +1930,7 @@ fn run_exchange(sim: &Sim, prop: &str, tier: Tier) -> Outcome {
                 return fail(
                     prop,
                     "C18.timeout",
-                    format!("no matching packet arrived before the link ran dry but the exchange returned {:?}", got),
+                    format!("no matching packet arrived before the link ran dry but the exchange returned {}", match &got { Ok(v) => brief(v), Err(e) => format!("Err({:?})", e) }),
                     "timeout".to_string(),
                 );
             }
@@ -1739,18 +1938,18 @@ fn run_exchange(sim: &Sim, prop: &str, tier: Tier) -> Outcome {
         } else {
             let clause = if multi_form { "C18.all" } else { "C18.first" };
             match &got {
-                Ok(v) if *v == want_strings => {}
+                Ok(v) if v == want_strings => {}
                 _ => {
                     return fail(
                         prop,
                         clause,
                         format!(
-                            "requested {} (capture_all={}, own {:04x}): expected {:?} in arrival order, the exchange returned {:?}",
-                            KIND_NAMES[kind as usize],
+                            "requested {} (capture_all={}, own {:04x}): expected {} in arrival order, the exchange returned {}",
+                            kind_name(kind),
                             capture,
                             own,
-                            want_strings,
-                            got
+                            brief(want_strings),
+                            match &got { Ok(v) => brief(v), Err(e) => format!("Err({:?})", e) }
                         ),
                         if multi_form { "wrong-reply-list" } else { "wrong-reply" }.to_string(),
                     )
@@ -1758,6 +1957,9 @@ fn run_exchange(sim: &Sim, prop: &str, tier: Tier) -> Outcome {
             }
             if multi_form && want_strings.len() >= 2 {
                 sim.probe("exchange_multiple_replies");
+            }
+            if multi_form && want_strings.len() > 4096 {
+                sim.probe("exchange_over_4096_replies");
             }
             if multi_form && want_strings.is_empty() {
                 sim.probe("exchange_empty_list");
@@ -1802,14 +2004,15 @@ fn run_exchange(sim: &Sim, prop: &str, tier: Tier) -> Outcome {
         sim.abstract_state((kind << 8) | ((multi_form as u32) << 7) | ((capture as u32) << 6) | (bucket(queue.len()) << 2) | (expect_err.is_some() as u32) << 1 | expect_timeout as u32);
         sim.set_sample(|| {
             format!(
-                "own={:04x} exchange_packet{}::<{}> capture_all={} request->{:04x} queue=[{}] -> {:?}",
+                "own={:04x} exchange_packet{}::<{}> capture_all={} request->{:04x} queue=[{}] -> {}",
                 own,
                 if multi_form { "s" } else { "" },
-                KIND_NAMES[kind as usize],
+                kind_name(kind),
                 capture,
                 req_addr,
                 queue
                     .iter()
+                    .take(40)
                     .map(|i| match i {
                         RxItem::Pkt(p) => format!("pkt@{:04x}/{}B{}", p.device_address, p.data.len(), if p.is_error { "/err" } else { "" }),
                         RxItem::Nothing => "nothing".to_string(),
@@ -1817,24 +2020,15 @@ fn run_exchange(sim: &Sim, prop: &str, tier: Tier) -> Outcome {
                     })
                     .collect::<Vec<_>>()
                     .join(","),
-                got
+                match &got { Ok(v) => brief(v), Err(e) => format!("Err({:?})", e) }
             )
         });
     }
     Outcome::Pass
 }
 
+/// true if routing the request invokes handlers that use the link themselves (transmitting
+/// handlers, a handler performing an exchange): the outcome of "the next send" cannot be pinned
 fn has_loop_senders(hs: &[MHandler], req_addr: u16, own: u16) -> bool {
-    req_addr == own && hs.iter().any(|h| matches!(h.beh, Beh::Sender(_)))
-}
-
-/// Debug text of the event inside the AnyEvent wrapper (what `{:?}` of the
-/// library's own event value prints).
-fn inner_debug(e: &AnyEvent) -> String {
-    let s = format!("{:?}", e);
-    // "Variant(Inner { .. })" -> "Inner { .. }"
-    match (s.find('('), s.rfind(')')) {
-        (Some(a), Some(b)) if b > a => s[a + 1..b].to_string(),
-        _ => s,
-    }
+    req_addr == own && hs.iter().any(|h| matches!(h.beh, Beh::Sender(_) | Beh::Exchanger))
 }
